@@ -637,6 +637,13 @@ impl<Ix: SIx> Driver<Ix> {
             "obs" => {
                 self.nobs += 1;
                 let mut o = on!(&self.obj, g => observe!(g, rng, ixmax));
+                // Graph only: the public accessors to the internals (raw_nodes, raw_edges, first_edge / next_edge chains,
+                // into_nodes_edges)
+                match &self.obj {
+                    Obj::GD(g) => { o["raw"] = raw_json(g); }
+                    Obj::GU(g) => { o["raw"] = raw_json(g); }
+                    _ => {}
+                }
                 if self.is_acyclic_wrapped() {
                     let (ord, pos_inc, atpos_ok) = self.ac_info();
                     macro_rules! acobs { ($a:expr) => {{
@@ -1535,4 +1542,26 @@ pub fn accover_replay(scripts: &[Value], stride: usize, offset: usize, log: &mut
             if j % 2 == 0 { d.apply(&json!({"op":"obs"}), log, &mut rng); }
         }
     }
+}
+
+fn raw_json<Ty: petgraph::EdgeType, Ix: IndexType>(g: &Graph<i32, i32, Ty, Ix>) -> Value {
+    let nodes: Vec<i32> = g.raw_nodes().iter().map(|n| n.weight).collect();
+    let edges: Vec<Value> = g.raw_edges().iter().map(|e| json!([e.source().index(), e.target().index(), e.weight])).collect();
+    let chain = |a: usize, d: petgraph::Direction| -> Vec<usize> {
+        let mut v = vec![];
+        let mut e = g.first_edge(ni(a), d);
+        while let Some(x) = e {
+            v.push(x.index());
+            if v.len() > 4096 { break; }   // a cyclic chain: reported through the length
+            e = g.next_edge(x, d);
+        }
+        v
+    };
+    let n = g.node_count().min(12);
+    let co: Vec<Vec<usize>> = (0..n).map(|a| chain(a, Outgoing)).collect();
+    let ci: Vec<Vec<usize>> = (0..n).map(|a| chain(a, Incoming)).collect();
+    let (pn, pe) = g.clone().into_nodes_edges();
+    let ine_nodes: Vec<i32> = pn.iter().map(|n| n.weight).collect();
+    let ine_edges: Vec<Value> = pe.iter().map(|e| json!([e.source().index(), e.target().index(), e.weight])).collect();
+    json!({"nodes": nodes, "edges": edges, "co": co, "ci": ci, "ine_nodes": ine_nodes, "ine_edges": ine_edges})
 }
